@@ -195,6 +195,14 @@ Theorem C08_resplit_wf : forall pre post d shape active es bs p,
 Proof. exact ref_parts_wf. Qed.
 Print Assumptions C08_resplit_wf.
 
+(* depth > 0: the sub-fibers a split skips (updatePayloads does not visit empty payloads) hold no
+   non-default value; _clearEmptyFibers (fix S29) turns them into empty fibers, which loses
+   nothing and fits the deeper rank structure *)
+Theorem C08_skipped_lossless : forall d t,
+  is_empty d t = true -> content d t = [] /\ content d (cleared t) = [] /\ is_empty d (cleared t) = true.
+Proof. exact skipped_lossless. Qed.
+Print Assumptions C08_skipped_lossless.
+
 (* the faithful model's observation meets the oracle for every well-formed case: every split
    kind (uniform, non-uniform, equal, unequal, "/" and "//"), every depth, fiber or tensor entry
    point, with or without a re-split of every partition *)
